@@ -1,4 +1,5 @@
 import Asn1cModel.Proofs.Native
+import Asn1cModel.Proofs.NativeSemi
 /-
   C13 — code-generation options never change the wire format.
   Property theorems only (helper lemmas: Proofs/Native.lean, Proofs/Integer.lean, Props/C16.lean).
@@ -17,7 +18,7 @@ import Asn1cModel.Proofs.Native
 -/
 namespace Asn1c.Props.C13
 open Asn1c Asn1c.Impl.Integer Asn1c.Impl.BerTlv Asn1c.Impl.Native Asn1c.Spec
-open Asn1c.Proofs.Integer Asn1c.Proofs.Native
+open Asn1c.Proofs.Integer Asn1c.Proofs.Native Asn1c.Proofs.NativeSemi
 
 /-! ### DER / BER: INTEGER and ENUMERATED (`asn_OP_NativeEnumerated` and `asn_OP_ENUMERATED` use the
     same `NativeInteger_encode_der` / `INTEGER_encode_der` / decoders) -/
@@ -225,30 +226,122 @@ theorem INTEGER_encode_uper_unsigned_irrelevant (ct : Option PerCt) (bs : Bytes)
       rw [d1, d2]
 
 /-- F172: beyond `LONG_MAX` the `field_unsigned` flag is *not* irrelevant: for `INTEGER (0..MAX)` (semi-constrained,
-    lower bound 0) holding 2^63 the native descriptor (`field_unsigned`) encodes `09 00 80 00 …`, while the
+    lower bound 0) holding 2^63 the native descriptor (`field_unsigned`) encodes `08 80 00 …` (X.691 10.7.4, F110 repaired), while the
     -fwide-types descriptor (no specifics) goes through `asn_INTEGER2long` and fails. -/
 theorem INTEGER_encode_uper_unsigned_relevant_cex :
     twosVal [0, 0x80, 0, 0, 0, 0, 0, 0, 0] = 2 ^ 63 ∧
     NativeInteger_encode_uper true (some ⟨false, true, -1, 0, 0⟩) (2 ^ 63) =
-      some (natBits 8 9 ++ bytesToBits [0, 0x80, 0, 0, 0, 0, 0, 0, 0]) ∧
+      some (natBits 8 8 ++ bytesToBits [0x80, 0, 0, 0, 0, 0, 0, 0]) ∧
     INTEGER_encode_uper false (some ⟨false, true, -1, 0, 0⟩) [0, 0x80, 0, 0, 0, 0, 0, 0, 0] = none := by decide
 
+/-- C06 (finding F18 repaired): `INTEGER_encode_uper` sees the stored octets only through the leading-octet
+    strip loop: redundant leading `00` / `FF` octets never reach the wire.  (`hu` is no longer needed since `asn_INTEGER2ulong` rejects negative INTEGERs — F3 repaired — and is kept for
+    the callers' convenience.) -/
+theorem INTEGER_encode_uper_strip (uns : Bool) (ct : Option PerCt) (bs : Bytes) (hw : Bytes.wf bs) (hne : bs ≠ [])
+    (hu : uns = true → 0 ≤ twosVal bs ∧ twosVal bs < 2 ^ 64) :
+    INTEGER_encode_uper uns ct (strip bs) = INTEGER_encode_uper uns ct bs := by
+  have hsne := strip_ne_nil bs hne
+  have hsw := strip_wf bs hw
+  have hsv := strip_val bs hw
+  unfold INTEGER_encode_uper
+  simp only [hne, hsne, if_false]
+  have hbody : ∀ c v, INTEGER_uper_body c v (strip bs) = INTEGER_uper_body c v bs := by
+    intro c v; unfold INTEGER_uper_body; rw [strip_idem]
+  cases ct with
+  | none => exact hbody none 0
+  | some c =>
+    cases uns with
+    | false =>
+      simp only [Bool.false_eq_true, if_false]
+      rw [INTEGER2long_spec _ hsw, INTEGER2long_spec _ hw, hsv]
+      simp only [hbody]
+    | true =>
+      simp only [if_true]
+      rw [Asn1c.Props.C16.INTEGER2ulong_spec _ hsw, Asn1c.Props.C16.INTEGER2ulong_spec _ hw, hsv]
+      simp only [hbody]
+
+/-- C06 (finding F18 repaired): two `INTEGER_t` representations of one value (any number of redundant leading
+    octets) have the same UPER encoding (or the same failure), under every PER value constraint -/
+theorem INTEGER_encode_uper_repr_invariant (uns : Bool) (ct : Option PerCt) (a b : Bytes)
+    (ha : Bytes.wf a) (hb : Bytes.wf b) (hane : a ≠ []) (hbne : b ≠ []) (h : twosVal a = twosVal b)
+    (hu : uns = true → 0 ≤ twosVal a ∧ twosVal a < 2 ^ 64) :
+    INTEGER_encode_uper uns ct a = INTEGER_encode_uper uns ct b := by
+  have e : strip a = strip b :=
+    minimal_unique _ _ (strip_wf a ha) (strip_wf b hb) (strip_ne_nil a hane) (strip_ne_nil b hbne)
+      (strip_minimal a) (strip_minimal b) (by rw [strip_val a ha, strip_val b hb, h])
+  rw [← INTEGER_encode_uper_strip uns ct a ha hane hu,
+      ← INTEGER_encode_uper_strip uns ct b hb hbne (by rw [← h]; exact hu), e]
+
+/-- the former F18 witness: `00 00 05` of an unconstrained INTEGER is written as `01 05` (was `03 00 00 05`) -/
+theorem INTEGER_encode_uper_padded_witness :
+    INTEGER_encode_uper false none [0, 0, 5] = some (bytesToBits [0x01, 0x05]) ∧
+    INTEGER_encode_uper false none [5] = some (bytesToBits [0x01, 0x05]) := by decide
+
+/-- C02 (findings F42 / F110 repaired): for a semi-constrained `INTEGER (lb..MAX)` (any lower bound, also
+    negative or non-zero) and every value `lb ≤ v` of the `long` range, `INTEGER_encode_uper` emits exactly the
+    semi-constrained whole number of X.691 §10.7: the length octet and the minimal non-negative octets of `v - lb`
+    (no sign octet: 128 of `INTEGER (0..MAX)` is `01 80`) -/
+theorem INTEGER_encode_uper_semi_eq_spec (lb ub v : Int) (bs : Bytes) (hw : Bytes.wf bs) (hv : twosVal bs = v)
+    (hne : bs ≠ []) (hfv : fitsS64 v) (hfl : fitsS64 lb) (h : lb ≤ v) :
+    INTEGER_encode_uper false (some ⟨false, true, -1, lb, ub⟩) bs = some (Spec.Per.semiConstrainedWholeNumber lb v) := by
+  unfold fitsS64 at hfv hfl
+  unfold INTEGER_encode_uper
+  simp only [hne, if_false, Bool.false_eq_true]
+  rw [INTEGER2long_spec bs hw, hv, if_pos (by unfold fitsS64; exact hfv)]
+  simp only [if_true]
+  rw [show decide (v < lb) = false by simp; omega]
+  simp only [Bool.false_eq_true, if_false]
+  unfold INTEGER_uper_body
+  simp only
+  rw [if_neg (by omega), if_pos trivial]
+  have hmod : ((v - lb) % 2 ^ 64).toNat = (v - lb).toNat := by omega
+  rw [hmod, offsetOctets_eq _ (by omega)]
+  have hlen : (Spec.Per.nnOctets (v - lb).toNat).length ≤ 8 := by
+    rw [← offsetOctets_eq _ (by omega)]; exact offsetOctets_length _
+  unfold uperLenOctets Spec.Per.semiConstrainedWholeNumber
+  rw [if_pos (by omega)]
+  generalize Spec.Per.nnOctets (v - lb).toNat = os at hlen
+  simp only [Spec.Per.lengthPrefixed, List.length_map]
+  rw [if_pos (by omega)]
+  unfold Spec.Per.lengthDetSmall
+  rw [if_pos (by omega), bytesToBits_eq_flatten, Asn1c.Proofs.PerSupport.natBits_cons]
+  have : (os.length / 2 ^ 7 % 2 == 1) = false := by simp; omega
+  rw [this]; rfl
+
+/-- the former witnesses: `INTEGER (5..MAX)`, value 5 → `01 00` (F42: was an encoding failure);
+    `INTEGER (0..MAX)`, value 128 → `01 80` (F110: was `02 00 80`) -/
+theorem INTEGER_encode_uper_semi_witnesses :
+    INTEGER_encode_uper false (some ⟨false, true, -1, 5, 0⟩) [5] = some (bytesToBits [0x01, 0x00]) ∧
+    INTEGER_encode_uper false (some ⟨false, true, -1, 0, 0⟩) [0, 128] = some (bytesToBits [0x01, 0x80]) := by decide
+
 /-- **-fwide-types does not change UPER**: same bits (or the same failure) from the native cell and
-    from the minimal `INTEGER_t` of the same value, for every PER value constraint; `unsN`/`unsW` are
+    from **any** `INTEGER_t` representation of the same value (redundant leading octets included: finding F18
+    repaired, the hypothesis `MinimalTwos bs` is gone), for every PER value constraint; `unsN`/`unsW` are
     the `field_unsigned` flags of the two descriptors (they differ for `INTEGER (0..MAX)`), which is
     only allowed for a non-negative value and non-negative bounds. -/
 theorem native_uper_eq_wide (unsN unsW : Bool) (ct : Option PerCt) (v : Int) (hv : fitsS64 v) (bs : Bytes)
-    (hw : Bytes.wf bs) (hne : bs ≠ []) (hm : MinimalTwos bs) (hbs : twosVal bs = v)
+    (hw : Bytes.wf bs) (hne : bs ≠ []) (hbs : twosVal bs = v)
     (hflag : unsN ≠ unsW → 0 ≤ v ∧ ∀ c, ct = some c → 0 ≤ c.lb ∧ c.lb < 2 ^ 63 ∧ 0 ≤ c.ub ∧ c.ub < 2 ^ 63)
     (hun : unsN = true → 0 ≤ v) :
     NativeInteger_encode_uper unsN ct (wordOfLong v) = INTEGER_encode_uper unsW ct bs := by
+  have hv' := hv
+  unfold fitsS64 at hv'
+  have hnn : unsW = true → 0 ≤ v := by
+    intro hW
+    by_cases hf : unsN = unsW
+    · exact hun (by rw [hf, hW])
+    · exact (hflag hf).1
+  rw [← INTEGER_encode_uper_strip unsW ct bs hw hne (fun hW => by rw [hbs]; exact ⟨hnn hW, by omega⟩)]
+  have hsw := strip_wf bs hw
+  have hsne := strip_ne_nil bs hne
+  have hsv : twosVal (strip bs) = v := by rw [strip_val bs hw, hbs]
   unfold NativeInteger_encode_uper
-  rw [nativeToINTEGER_eq_wide unsN v hv bs hw hne hm hbs hun]
+  rw [nativeToINTEGER_eq_wide unsN v hv (strip bs) hsw hsne (strip_minimal bs) hsv hun]
   by_cases hf : unsN = unsW
   · rw [hf]
   · obtain ⟨h0, hct⟩ := hflag hf
-    have hirr := INTEGER_encode_uper_unsigned_irrelevant ct bs hw (by rw [hbs]; exact h0)
-      (by rw [hbs]; exact hv.2) hct
+    have hirr := INTEGER_encode_uper_unsigned_irrelevant ct (strip bs) hsw (by rw [hsv]; exact h0)
+      (by rw [hsv]; exact hv.2) hct
     cases unsN <;> cases unsW <;> simp_all
 
 /-- … unsigned native cell against a wide descriptor that also has `field_unsigned`: whole
